@@ -1,4 +1,479 @@
-def register(chk):
-    pass
+"""C10, part (4): random sampling (see checks/c10.py for the property and engine/retrycut.py for the treatment of the rejection loops).
+
+The caller's random source is a nondeterministic stub: every call must ask for a concrete number n of bytes at a pointer with n writable
+bytes (E-IR's bounds assertion) and receives n FRESH symbolic bytes.  Rejection loops are cut as retry loops; per path:
+  Fr::random, Fq::random     exit: value = the last draw with the unused top bits cleared, value < modulus; retry: only if that value >= modulus
+  Fq2::random                = Fq::random on c0 and on c1 (trace)
+  BigInt<64>::random         exactly byte_length bytes drawn into the object
+  PowersOfX::random          (affine integers, engine/eir_lin.py) exit: every digit c_j = its draw < |x|, y = sum c_j |x|^j EXACTLY (the stored
+                             256-bit value equals the integer sum: no carry lost), y < r; retry: only if a digit >= |x| resp. y >= r;
+                             lemma (LIA): digits -> y is injective on [0,|x|)^4; ground: r <= |x|^4 <= 2^256.  Rejection therefore yields the uniform
+                             distribution on [0, r) if the source is uniform (paper step).
+  G1/G2::random_generator    (uninterpreted trace) exit: result = [cofactor](x, y) for the point get_point_from_x accepted for this iteration's
+                             fresh x and the fresh bit, residue test on, and Projective::is_zero(result) was evaluated false AFTER the
+                             multiplication: a non-identity element of the order-r subgroup (T10)
+"""
+import sys
+import os
+sys.path.insert(0, os.path.dirname(os.path.dirname(os.path.abspath(__file__))))
+sys.path.insert(0, os.path.dirname(os.path.abspath(__file__)))
+
+import z3
+from engine import eir, eir_lin, retrycut
+from engine.dom_lin import LinCtx, LV
+from engine.eir import Ptr, Obj, is_conc, ExecError
+from engine.framework import Violation, Inconclusive
+
+B = "embedded_pairing::bls12_381::"
+CORE = "embedded_pairing::core::"
+ANY = r"\(.*\)"
+R_ORDER = 0x73eda753299d7d483339d80809a1d80553bda402fffe5bfeffffffff00000001
+Q = 0x1a0111ea397fe69a4b1ba7b6434bacd764774b84f38512bf6730d2a0f6b0f6241eabfffeb153ffffb9feffffffffaaab
+ABS_X = 0xd201000000010000
+CB = eir.FnRef("get_random_bytes")
+
+
+def c10():
+    import c10 as m
+    return m
+
+
+class ByteSource:
+    """the random callback over bit-vectors"""
+
+    def __init__(self, I, inner=None):
+        self.I = I
+        self.draws = []
+        self.inner = inner
+
+    def __call__(self, I_, name, args, site):
+        if name != "get_random_bytes":
+            if self.inner is not None:
+                return self.inner(I_, name, args, site)
+            raise ExecError("unsupported", "call to external function " + name)
+        p, n = args
+        if not is_conc(n):
+            raise Violation("random-source:length", "the random source is asked for a symbolic number of bytes", {})
+        I_._check_access(p, n, 1, True)
+        k = len(self.draws)
+        bs = [z3.BitVec("rnd%d_%d" % (k, i), 8) for i in range(n)]
+        for i in range(n):
+            I_.store_cell(p.obj, p.off + i, 1, bs[i])
+        self.draws.append((p.obj, p.off, n, bs))
+        return None
+
+
+# ---------------------------------------------------------------------------------------------------------------
+def ob_fp_random(fld, cfg="A"):
+    m = c10()
+    P = m.prog(cfg)
+    N, keep, p = (256, 255, R_ORDER) if fld == "Fr" else (384, 381, Q)
+    nb = N // 8
+    f = P.find1(B + fld + r"::random" + ANY)
+    I = eir.Interp(P)
+    I.solver.set("timeout", 120000)
+    src = ByteSource(I, m.asm_kernels(I))
+    I.external_handler = src
+    rc = retrycut.RetryCut(I, [f], lambda: [this[0]])
+    this = [None]
+
+    def once():
+        rc.reset()
+        del src.draws[:]
+        this[0] = Obj("this", nb, "arg", 16)
+        try:
+            I.call_named(f, [Ptr(this[0], 0), CB])
+            return "exit"
+        except eir.LoopCut:
+            return "retry"
+    pv = z3.BitVecVal(p, N)
+    key = fld + "::random"
+    n = ex = rt = 0
+    for path, kind in I.explore(once, 256):
+        n += 1
+        if len(src.draws) != 1 or not (src.draws[0][0] is this[0] and src.draws[0][1] == 0 and src.draws[0][2] == nb):
+            raise Violation(key + ":draw", "%s::random does not draw exactly %d bytes into the value per iteration (%r)" % (fld, nb, [(d[0].name, d[1], d[2]) for d in src.draws]), {})
+        D = z3.Concat(*reversed(src.draws[0][3]))
+        masked = D & z3.BitVecVal((1 << keep) - 1, N)
+        if kind == "exit":
+            ex += 1
+            val = eir.as_bv(I.load_bytes(this[0], 0, nb), N)
+            r, mdl = m.decide(I, path.pc, [], z3.And(val == masked, z3.ULT(val, pv)), "exit value")
+            if r == z3.sat:
+                raise Violation(key + ":range", "%s::random returns a value that is not the masked draw or is not below the modulus" % fld,
+                                {"draw": hex(mdl.eval(D, model_completion=True).as_long()), "value": hex(mdl.eval(val, model_completion=True).as_long())})
+        else:
+            rt += 1
+            r, mdl = m.decide(I, path.pc, [], z3.UGE(masked, pv), "retry condition")
+            if r == z3.sat:
+                raise Violation(key + ":bias", "%s::random rejects a draw that is below the modulus (the distribution is not uniform)" % fld,
+                                {"draw": hex(mdl.eval(D, model_completion=True).as_long())})
+    if ex < 1 or rt < 1:
+        raise Inconclusive("expected accepting and retrying paths, got %d / %d" % (ex, rt))
+    m.check_pure(I, key, key)
+    return {"queries": getattr(I, "vc_count", 0), "paths": n, "functions": [m.short(P, f)],
+            "sample": "%d paths (%d accept, %d retry; %d back edges recognised as independent retries); draw = %d fresh symbolic bytes" % (n, ex, rt, rc.cuts, nb)}
+
+
+def ob_fq2_random():
+    m = c10()
+    P = m.prog()
+    f = P.find1(B + r"Fq2::random" + ANY)
+    I = eir.Interp(P)
+    calls = []
+    I.add_intercept(B + r"Fq::random" + ANY, lambda I_, n, a, s: calls.append(a), "Fq::random")
+    this = Obj("this", 96, "arg", 16)
+    I.call_named(f, [Ptr(this, 0), CB])
+    ok = len(calls) == 2 and sorted(a[0].off for a in calls) == [0, 48] and all(a[0].obj is this and a[1] is CB for a in calls)
+    if not ok:
+        raise Violation("Fq2::random", "Fq2::random is not Fq::random on c0 and on c1 with the caller's source", {"calls": len(calls)})
+    return {"queries": 0, "paths": 1, "functions": [m.short(P, f)], "sample": "trace: Fq::random(c0), Fq::random(c1)"}
+
+
+def ob_bigint_random(bits):
+    m = c10()
+    P = m.prog()
+    f = P.find1(CORE + r"BigInt<%d>::random" % bits + ANY)
+    I = eir.Interp(P)
+    src = ByteSource(I)
+    I.external_handler = src
+    size = I.prog.layout(I.prog.fn[f].module).size(I.prog.fn[f].params[0].ty.to)
+    this = Obj("this", size, "arg", 16)
+    I.call_named(f, [Ptr(this, 0), CB])
+    if [(d[0], d[1], d[2]) for d in src.draws] != [(this, 0, bits // 8)]:
+        raise Violation("BigInt<%d>::random" % bits, "BigInt<%d>::random does not draw exactly %d bytes into the value" % (bits, bits // 8), {})
+    return {"queries": 0, "paths": 1, "functions": [m.short(P, f)], "sample": "one draw of %d bytes at offset 0 of the %d-byte object" % (bits // 8, size)}
+
+
+# ---------------------------------------------------------------------------------------------------------------
+POWERS_OF_X_OBLIGATION = "PowersOfX::random"
+
+
+class IV:
+    """a BigInt object's value as an integer term (python int or z3 Int)"""
+    __slots__ = ("v",)
+
+    def __init__(self, v):
+        self.v = v
+
+    def same_as(self, o):
+        return isinstance(o, IV) and (o.v is self.v or (isinstance(o.v, int) and isinstance(self.v, int) and o.v == self.v)
+                                      or (isinstance(o.v, z3.ExprRef) and isinstance(self.v, z3.ExprRef) and o.v.eq(self.v)))
+
+
+def ob_powersofx_random():
+    """PowersOfX::random composed from the integer specifications of the BigInt operations it calls (each decided at word level:
+    checks/c10_words.py, and C02 for the 256-bit add / compare): values are integer terms, the digits are fresh integers in [0, 2^64)."""
+    m = c10()
+    P = m.prog()
+    f = P.find1(B + r"PowersOfX::random" + ANY)
+    I = eir.Interp(P)
+    I.solver.set("timeout", 60000)
+    draws = []
+    BI = CORE + r"BigInt<(\d+)>::"
+
+    def width(name, k=1):
+        import re
+        return [int(x) for x in re.findall(r"BigInt<(\d+)>", I.prog.demangled[name])]
+
+    def rd(p, bits):
+        c = p.obj.cells.get(p.off)
+        if c is not None and isinstance(c[1], IV):
+            if c[0] != bits // 8:
+                raise ExecError("spec", "a %d-bit integer is read where a %d-byte one is stored" % (bits, c[0]))
+            return c[1].v
+        v = I.load_bytes(p.obj, p.off, bits // 8)
+        if not is_conc(v):
+            raise ExecError("abstract-bytes", "symbolic raw bytes read as an integer")
+        return v
+
+    def wr(p, bits, v):
+        I._check_access(p, bits // 8, 1, True)
+        I.store_cell(p.obj, p.off, bits // 8, IV(v))
+
+    def h_random(I_, name, args, site):
+        if args[1] is not CB:
+            raise Violation("PowersOfX::random:source", "a digit is not drawn from the caller's source", {})
+        d = z3.Int("draw%d" % len(draws))
+        I_.path.pc += [d >= 0, d < (1 << 64)]
+        draws.append((args[0].obj, args[0].off, d))
+        wr(args[0], 64, d)
+
+    def h_compare(I_, name, args, site):
+        n = width(name)[0]
+        a, b = rd(args[0], n), rd(args[1], n)
+        if isinstance(a, int) and isinstance(b, int):
+            return 0xffffffff if a < b else (0 if a == b else 1)
+        if I_.branch(a < b):
+            return 0xffffffff
+        return 0 if I_.branch(a == b) else 1
+
+    def h_multiply(I_, name, args, site):
+        k = width(name)[0]
+        wr(args[0], k, rd(args[1], 64) * rd(args[2], k - 64))
+
+    def h_copy(I_, name, args, site):
+        k, j = width(name)[0], width(name)[-1]
+        import re
+        j = int(re.search(r"copy<(\d+)>", I_.prog.demangled[name]).group(1))
+        wr(args[0], k, rd(args[1], j))
+
+    def h_add(I_, name, args, site):
+        k = width(name)[0]
+        s = rd(args[1], k) + rd(args[2], k)
+        c = s >= (1 << k)
+        wr(args[0], k, z3.If(c, s - (1 << k), s) if not isinstance(s, int) else s % (1 << k))
+        if k == 192:
+            return z3.Bool("unspecified_carry_%d" % len(draws))      # depends on padding bytes (c10_words: BigInt<192>::add)
+        return c if not isinstance(s, int) else int(s >= (1 << k))
+    I.add_intercept(CORE + r"BigInt<64>::random" + ANY, h_random, "BigInt<64>::random")
+    I.add_intercept(CORE + r"BigInt<(?:64|256)>::compare" + ANY, h_compare, "BigInt::compare")
+    I.add_intercept(r"void " + CORE + r"BigInt<\d+>::multiply<64>" + ANY, h_multiply, "BigInt::multiply<64>")
+    I.add_intercept(r"void " + CORE + r"BigInt<\d+>::copy<\d+>" + ANY, h_copy, "BigInt::copy")
+    I.add_intercept(CORE + r"BigInt<(?:128|192|256)>::add" + ANY, h_add, "BigInt::add")
+    fn = P.fn[f]
+    lay = P.layout(fn.module)
+    px_size = lay.size(fn.params[0].ty.to)
+    stride = px_size // 4
+    objs = [None, None]
+    rc = retrycut.RetryCut(I, [f], lambda: objs)
+
+    def once():
+        rc.reset()
+        del draws[:]
+        objs[0] = Obj("powers", px_size, "arg", 16)
+        objs[1] = Obj("y", 32, "arg", 16)
+        try:
+            I.call_named(f, [Ptr(objs[0], 0), Ptr(objs[1], 0), CB])
+            return "exit"
+        except eir.LoopCut:
+            return "retry"
+
+    def prove(pc, cond, what):
+        r, mdl = m.decide(I, pc, [], cond, what, 60000)
+        if r == z3.sat:
+            return False, [mdl.eval(d[2], model_completion=True).as_long() for d in draws]
+        return True, None
+
+    def ce(vals):
+        stream = b"".join(v.to_bytes(8, "little") for v in vals)
+        return {"kind": "pxrand", "digits": [hex(v) for v in vals], "stream": stream.hex()}
+    key = "PowersOfX::random"
+    n = ex = rt = 0
+    for path, kind in I.explore(once, 512):
+        n += 1
+        px, yo = objs
+        pc = list(path.pc)
+        for k, (o, off, v) in enumerate(draws):
+            if o is not px or off != stride * k or k > 3:
+                raise Violation(key + ":draw", "draw %d goes to %s+%d (expected digit %d of the result)" % (k, o.name, off, k), {})
+        tot = sum(draws[j][2] * ABS_X ** j for j in range(len(draws)))
+        if kind == "exit":
+            ex += 1
+            if len(draws) != 4:
+                raise Violation(key + ":draw", "%d digits drawn on an accepting path" % len(draws), {})
+            cs = [rd(Ptr(px, stride * k), 64) for k in range(4)]
+            yv = rd(Ptr(yo, 0), 256)
+            for k in range(4):
+                ok, vals = prove(pc, z3.And(cs[k] == draws[k][2], cs[k] < ABS_X), "digit range")
+                if not ok:
+                    raise Violation(key + ":digit", "digit %d of the decomposed exponent is not its draw below |x|" % k, ce(vals))
+            ok, vals = prove(pc, yv == tot, "y = sum c_j |x|^j")
+            if not ok:
+                raise Violation(key + ":sum", "the scalar returned is not sum c_j |x|^j of the digits returned (a wrong power, operand or a lost carry)", ce(vals))
+            ok, vals = prove(pc, z3.And(yv >= 0, yv < R_ORDER), "y < r")
+            if not ok:
+                raise Violation(key + ":range", "PowersOfX::random accepts a scalar that is not below the group order r", ce(vals))
+        else:
+            rt += 1
+            cond = draws[-1][2] >= ABS_X            # retry only if the digit just drawn is out of range, or (all four drawn) the scalar is
+            if len(draws) == 4:
+                cond = z3.Or(cond, tot >= R_ORDER)
+            ok, vals = prove(pc, cond, "retry condition")
+            if not ok:
+                raise Violation(key + ":bias", "PowersOfX::random rejects an in-range draw (the distribution is not uniform)", ce(vals))
+    if ex < 1 or rt < 5:
+        raise Inconclusive("expected accepting paths and retries of all five loops, got %d / %d" % (ex, rt))
+    for tag in ("BigInt<64>::random", "BigInt::compare", "BigInt::multiply<64>", "BigInt::copy", "BigInt::add"):
+        if not I.intercept_hits.get(tag):
+            raise Inconclusive("%s never reached (vacuity guard)" % tag)
+    m.check_pure(I, key, key)
+    return {"queries": getattr(I, "vc_count", 0), "paths": n, "functions": [m.short(P, f)],
+            "sample": "%d paths (%d accept, %d retry; %d back edges recognised as independent retries); digits are integer variables in [0, 2^64)" % (n, ex, rt, rc.cuts)}
+
+
+def ob_powersofx_lemmas():
+    c = z3.Ints("c0 c1 c2 c3")
+    d = z3.Ints("d0 d1 d2 d3")
+    s = z3.Solver()
+    s.set("timeout", 60000)
+    for v in c + d:
+        s.add(v >= 0, v < ABS_X)
+    s.add(sum(c[j] * ABS_X ** j for j in range(4)) == sum(d[j] * ABS_X ** j for j in range(4)))
+    s.add(z3.Or(*[c[j] != d[j] for j in range(4)]))
+    r = s.check()
+    if r == z3.unknown:
+        raise Inconclusive("solver unknown on injectivity")
+    if r == z3.sat:
+        raise Violation("PowersOfX:injective", "two digit vectors give the same scalar", {"model": str(s.model())})
+    if not (R_ORDER <= ABS_X ** 4 <= (1 << 256)) or R_ORDER != ABS_X ** 4 - ABS_X ** 2 + 1:
+        raise Violation("PowersOfX:ground", "r <= |x|^4 <= 2^256 fails", {})
+    return {"queries": 1, "paths": 0, "functions": ["(lemma) digits -> sum c_j |x|^j"],
+            "sample": "LIA: injective on [0,|x|)^4; ground: r = |x|^4 - |x|^2 + 1 <= |x|^4 <= 2^256 (every y < r has digits, the sum cannot overflow)"}
+
+
+# ---------------------------------------------------------------------------------------------------------------
+def ob_random_generator(grp):
+    m = c10()
+    P = m.prog()
+    deg = m.DEG[grp]
+    fld = "Fq" if grp == "G1" else "Fq2"
+    bits = 128 if grp == "G1" else 512
+    f = P.find1(B + grp + r"::random_generator" + ANY)
+    inner = P.find1(r"void " + B + r"sample_random_generator<" + B + grp + ", .*>" + ANY)
+    I = eir.Interp(P)
+    src = ByteSource(I)
+    I.external_handler = src
+    ev = []
+    cof, hval = m.cofactor_obj(I, grp)
+    key = "random_generator:" + grp
+
+    def fail(nm, msg, extra=None):
+        raise Violation(key + ":" + nm, "%s::random_generator: %s" % (grp, msg), dict({"group": grp, "kind": "g1rand" if grp == "G1" else "g2rand"}, **(extra or {})))
+
+    def tok(p, size):
+        c = p.obj.cells.get(p.off)
+        return c[1] if c is not None and c[0] == size and isinstance(c[1], tuple) else None
+
+    def h_rand(I_, name, args, site):
+        if args[1] is not CB:
+            fail("source", "the field element is not drawn from the caller's source")
+        t = ("x", len(ev))
+        I_._check_access(args[0], 48 * deg, 1, True)
+        I_.store_cell(args[0].obj, args[0].off, 48 * deg, t)
+        ev.append(("rand", t))
+
+    def h_gp(I_, name, args, site):
+        t = tok(args[1], 48 * deg)
+        ok = z3.Bool("ok%d" % len(ev))
+        ev.append(("gp", args[0].obj, t, args[2], args[3], ok))
+        if I_.branch(ok):
+            I_._check_access(args[0], 96 * deg + 1, 1, True)
+            I_.store_cell(args[0].obj, args[0].off, 96 * deg, ("pt", t, len(ev)))
+            I_.store_cell(args[0].obj, args[0].off + 96 * deg, 1, 0)
+            return 1
+        return 0
+
+    def h_mul(I_, name, args, site):
+        t = tok(args[1], 96 * deg)
+        inf = args[1].obj.cells.get(args[1].off + 96 * deg)
+        if t is None or t[0] != "pt" or inf is None or inf[1] != 0:
+            fail("base", "the point multiplied is not the curve point get_point_from_x produced")
+        if not (args[2].obj is cof and args[2].off == 0):
+            fail("cofactor", "the scalar is not %sAffine::cofactor" % grp)
+        r = ("mul", t)
+        I_._check_access(args[0], 144 * deg, 1, True)
+        I_.store_cell(args[0].obj, args[0].off, 144 * deg, r)
+        ev.append(("mul", args[0].obj, r))
+
+    def h_iszero(I_, name, args, site):
+        t = tok(args[0], 144 * deg)
+        z = z3.Bool("zero%d" % len(ev))
+        ev.append(("is_zero", args[0].obj, t, z))
+        return z
+    I.add_intercept(B + fld + r"::random" + ANY, h_rand, fld + "::random")
+    I.add_intercept(B + m.AFF[grp] + r"::get_point_from_x" + ANY, h_gp, "get_point_from_x")
+    I.add_intercept(r"void " + B + grp + r"::multiply<" + B + grp + r"Affine>\(.*BigInt<%d> const&\)" % bits, h_mul, "multiply by cofactor")
+    I.add_intercept(B + r"Projective<" + B + fld + r">::is_zero\(\) const", h_iszero, "Projective::is_zero")
+    rc = retrycut.RetryCut(I, [inner], lambda: [res[0]])
+    res = [None]
+
+    def once():
+        rc.reset()
+        del ev[:]
+        del src.draws[:]
+        res[0] = Obj("result", 144 * deg, "arg", 16)
+        try:
+            I.call_named(f, [Ptr(res[0], 0), CB])
+            return "exit"
+        except eir.LoopCut:
+            return "retry"
+    n = ex = rt = 0
+    for path, kind in I.explore(once, 64):
+        n += 1
+        gps = [e for e in ev if e[0] == "gp"]
+        rands = [e for e in ev if e[0] == "rand"]
+        if len(gps) != 1 or len(rands) != 1 or len(src.draws) != 1 or src.draws[0][2] != 1:
+            fail("trace", "an iteration does not consist of one field element, one byte and one get_point_from_x (%r)" % ([e[0] for e in ev],))
+        _, gobj, gx, greater, checked, ok = gps[0]
+        if gx != rands[0][1]:
+            fail("x", "get_point_from_x is not given the field element just drawn")
+        if not (is_conc(checked) and checked == 1):
+            fail("unchecked", "get_point_from_x is called without the residue test")
+        bit = z3.Extract(0, 0, src.draws[0][3][0]) == 1
+        gb = greater if isinstance(greater, z3.BoolRef) else (z3.BoolVal(bool(greater)) if is_conc(greater) else greater != 0)
+        r, _ = m.decide(I, path.pc, [], gb == bit, "sign bit")
+        if r == z3.sat:
+            fail("sign", "the y choice is not the low bit of the byte drawn")
+        last = ev[-1]
+        if kind == "exit":
+            ex += 1
+            muls = [e for e in ev if e[0] == "mul"]
+            if len(muls) != 1 or muls[0][1] is not res[0]:
+                fail("result", "the result is not written by one cofactor multiplication")
+            c = res[0].cells.get(0)
+            if c is None or c[1] != muls[0][2]:
+                fail("result", "the result object does not hold cofactor * point on return")
+            tests = [e for e in ev[ev.index(muls[0]) + 1:] if e[0] == "is_zero" and e[1] is res[0] and e[2] == muls[0][2]]
+            if not tests:
+                fail("identity-test", "returns without testing the cofactor-cleared point for the identity: a curve point of order dividing the cofactor "
+                     "(e.g. x = 0 on G1) yields the identity", {"stream": "00" * 49})
+            r, _ = m.decide(I, path.pc, [], z3.Not(tests[-1][3]), "exit only if non-zero")
+            if r == z3.sat:
+                fail("identity", "returns although the cofactor-cleared point is the identity")
+        else:
+            rt += 1
+            reason = None
+            if last[0] == "gp":
+                r, _ = m.decide(I, path.pc, [], z3.Not(last[5]), "retry after failure")
+                reason = r == z3.unsat
+            elif last[0] == "is_zero":
+                r, _ = m.decide(I, path.pc, [], last[3], "retry on identity")
+                reason = r == z3.unsat
+            if not reason:
+                fail("retry", "an iteration is repeated for another reason than a failed get_point_from_x or an identity result")
+    if ex < 1 or rt < 2:
+        raise Inconclusive("expected one accepting and two retrying paths, got %d / %d" % (ex, rt))
+    m.check_pure(I, key, "random_generator")
+    return {"queries": getattr(I, "vc_count", 0), "paths": n, "functions": [m.short(P, f), m.short(P, inner)],
+            "sample": "%d paths (%d accept, %d retry); result = [%sAffine::cofactor](point accepted for the fresh x), tested non-identity after the multiplication" % (n, ex, rt, grp)}
+
+
+# ---------------------------------------------------------------------------------------------------------------
 def replay(res):
+    ce = res.counterexample or {}
+    kind = ce.get("kind")
+    if kind == "pxrand" and ce.get("stream"):
+        import natreplay
+        out = natreplay.run(["pxrand " + ce["stream"]])[0]
+        ce["native_replay"] = out
+        return "NOT_BELOW_R" in out if res.finding_key.endswith(":range") else None
+    if kind == "g1rand" and ce.get("stream"):
+        import natreplay
+        out = natreplay.run(["g1rand " + ce["stream"]])[0]
+        ce["native_replay"] = out
+        return out.startswith("IDENTITY")
     return None
+
+
+def register(chk):
+    chk.add("Fr::random", ob_fp_random, "Fr")
+    chk.add("Fq::random", ob_fp_random, "Fq")
+    chk.add("Fq2::random", ob_fq2_random)
+    chk.add("BigInt<64>::random", ob_bigint_random, 64)
+    chk.add(POWERS_OF_X_OBLIGATION, ob_powersofx_random)
+    chk.add("PowersOfX::random:lemmas", ob_powersofx_lemmas)
+    chk.add("random_generator:G1", ob_random_generator, "G1")
+    chk.add("random_generator:G2", ob_random_generator, "G2")
+    import c10_words
+    c10_words.register(chk)
